@@ -93,6 +93,7 @@ func VH_C16_pco_arbitrary() {
 		vrt.Assert(int(u.LengthOfContents) == len(u.Contents), "PCO: LengthOfContents = len(Contents) for parsed units")
 	}
 	m := pco.Marshal()
+	vrt.Assert(len(m) >= 1 && m[0] == 0x80, "PCO: serialising a parsed list starts with the configuration-protocol octet 0x80 whatever the parsed first octet was")
 	vrt.Assert(len(m) <= n || n == 0, "PCO: parsed units are not longer than the input")
 	for i := 1; i < len(m) && i < n; i++ {
 		vrt.Assert(m[i] == data[i], "PCO: parsed identifiers, lengths and contents are exactly the input octets at their positions")
